@@ -298,13 +298,15 @@ def reviewed(m, L, s):
         return False
     for e in reviewed_table():
         if s.what == e['what'] and prod == e.get('producer', prod) and same_unit(e['fn']):
-            cond = e.get('side_condition')
-            if cond:
+            conds = [e['side_condition']] if e.get('side_condition') else []
+            conds += e.get('side_conditions', [])
+            whys = []
+            for cond in conds:
                 ok, why = SIDE_CONDITIONS[cond](m)
                 if not ok:
                     return False, 'side condition %s no longer holds: %s' % (cond, why)
-                return True, e['reason'] + ' [%s: %s]' % (cond, why)
-            return True, e['reason']
+                whys.append('%s: %s' % (cond, why))
+            return True, e['reason'] + (' [%s]' % '; '.join(whys) if whys else '')
     if s.what == 'Option::unwrap':
         # unwrap of a value tested just before on the same path (x == None || .. x.unwrap() ; x.is_some() && x.unwrap())
         ok, why = dominated_by_some_test(b, s)
@@ -474,7 +476,41 @@ def missing_db_is_refused(m):
                         got = True
         if not got:
             bad.append(v)
-    return (not bad), ('ReplicateSet/Remove/Increment answer Error for an unknown database' if not bad else 'no refusal in %s' % bad)
+    # the list forms (snapshot a|b|…): one unknown name must make the whole command an error, otherwise the message is
+    # enqueued and the replication loop finds no id for that database
+    P = m.prog
+    resp = P.adts.get('nundb::bo::Response', {'variants': []})
+    err_discr = {str(v['discr']) for v in resp['variants'] if v['name'] == 'Error'}
+    for v in ('ReplicateSnapshot',):
+        if v not in sw[1]:
+            continue
+        reg = m.arm_region(d, sw, v)
+        scope = []
+        for x in sorted(reg):
+            for s in d.blocks[x]['s']:
+                if s['k'] == 'assign' and s['r']['k'] == 'agg' and s['r'].get('ak') == 'closure' and s['r']['def'] in P.bodies:
+                    root = P.bodies[s['r']['def']]
+                    scope.append(root)
+                    scope += [P.bodies[k] for k in P.bodies if k.startswith(root.id + '::{closure')]
+                    scope += P.private_helpers(root)
+        propagates = False
+        for b in scope:
+            for x in b.reachable():
+                tx = b.term(x)
+                if tx['k'] != 'switch':
+                    continue
+                for r in origins(b, tx['o']):
+                    if r[0] == 'discr' and b.blocks[r[1]]['s'][r[2]]['r']['adt'] == 'nundb::bo::Response':
+                        for val, tb in tx['targets']:
+                            if str(val) in err_discr:
+                                region = {y for y in b.reachable() if b.dominates(tb, y)}
+                                if any(s['k'] == 'assign' and s['r']['k'] == 'agg' and s['r'].get('variant') == 'Error' for y in region for s in b.blocks[y]['s']) \
+                                        or any(b.term(y)['k'] == 'return' for y in region):
+                                    propagates = True
+        if scope and not propagates:
+            bad.append(v + ' (a refusal for one database of the list is not propagated)')
+    return (not bad), ('ReplicateSet/Remove/Increment answer Error for an unknown database; the list forms propagate the refusal of any listed '
+                       'database' if not bad else 'no refusal in %s' % bad)
 
 
 _WIRE = {}
@@ -664,7 +700,9 @@ def _run(ck, m):
                 ck.ob('C10.a', fn, inst, True, 'reviewed: ' + why2, s.loc())
                 continue
             ck.ob('C10.a', fn, inst, False,
-                  '%s of %s can panic on the %s thread (path: %s)' % (s.what, s.detail.split('#')[0] or 'explicit panic', origin, pstr),
+                  '%s of %s can panic on the %s thread (path: %s)%s' % (
+                      s.what, s.detail.split('#')[0] or 'explicit panic', origin, pstr,
+                      '; ' + why2 if why2 and 'side condition' in why2 else ''),
                   s.loc())
     ck.floor('C10.a', n_sites, 100, 'may-panic sites examined')
     ck.meta['panic_sites_examined'] = n_sites
